@@ -140,9 +140,11 @@ def run(prop, case, exception_is_violation=False):
         if not MC.coarse_result_matches(aa, MC.coarse_truth(case['truth'])):
             viol.append(V('c02.copy_differs_from_definition', f"{MC.describe_case(case)} :: the resolved bead graph (names, bonds, bond orders) is not the graph whose fragments were written: "
                           f"{sorted((min(a, b), max(a, b), d.get('order')) for a, b, d in aa.edges(data=True))}"))
-    if prop == 'C03' and res['steps'] and case['kind'] in ('cut', 'virtual', 'coarse_cut') and 'surplus_edge_order' not in case.get('features', ()):
+    if prop == 'C03' and res['steps'] and case['kind'] in ('cut', 'virtual', 'coarse_cut'):
         # these workloads write one dedicated, uniquely labelled pair per unit of base-edge order:
-        # 'exactly that many' bonds must exist between the two coarse nodes
+        # 'exactly that many' bonds must exist between the two coarse nodes.  Where the generator raised the order of ONE
+        # base edge beyond its descriptors (feature surplus_edge_order), that one edge ends one bond short and every other
+        # edge, whose own pairs are all there, is still exact
         cg, aa = res['steps'][0]
         between = {}
         for u, v in aa.edges:
@@ -150,11 +152,17 @@ def run(prop, case, exception_is_violation=False):
             if len(fu) == 1 and len(fv) == 1 and fu != fv:
                 key = frozenset((fu[0], fv[0]))
                 between[key] = between.get(key, 0) + 1
-        for a, b, d in cg.edges(data=True):
-            if between.get(frozenset((a, b)), 0) != d.get('order', 1):
-                viol.append(V('c03.not_exactly_order_many_bonds', f"{MC.describe_case(case)} :: base edge {a}-{b} has order {d.get('order', 1)} "
-                              f"and a dedicated descriptor pair per unit, but {between.get(frozenset((a, b)), 0)} bonds join the two fragments"))
-                break
+        off = [(a, b, d.get('order', 1), between.get(frozenset((a, b)), 0)) for a, b, d in cg.edges(data=True)
+               if between.get(frozenset((a, b)), 0) != d.get('order', 1)]
+        surplus = 'surplus_edge_order' in case.get('features', ())
+        if surplus and len(off) == 1 and off[0][3] == off[0][2] - 1:
+            off = []
+            out['counters']['surplus_edge_stayed_local'] = 1
+        if off:
+            a, b, o, k = off[-1]
+            viol.append(V('c03.not_exactly_order_many_bonds', f"{MC.describe_case(case)} :: base edge {a}-{b} has order {o} "
+                          f"and a dedicated descriptor pair per unit, but {k} bonds join the two fragments"
+                          + (f" (one edge was written with a surplus order; {len(off)} edges deviate)" if surplus else '')))
     feats = tuple(sorted(case['features']))
     out['cls'] = (case['kind'], feats, case.get('nheavy'), case.get('nfrag'))
     out['nontrivial'] = bool(res['steps'])
